@@ -56,6 +56,7 @@ static std::pair<std::string, std::string> run_case(const Case &c, bool *outstan
     std::string site; for (int t : {1, 5, 6, 7}) if (r.trace_hits.count(t)) site += "+T" + std::to_string(t);
     auto inner = [&]() -> std::pair<std::string, std::string> {
     for (auto &v : r.violations) if (v.rfind("C09:handover_livelock", 0) == 0) return {"handover_livelock", v};
+    if (A.mode == "c09") for (auto &v : r.violations) if (v.rfind("C09:", 0) == 0) return {"monitor:" + v.substr(4), "API-contract monitor: " + v};
     if (obs.completes.size() != N) { std::string s; for (auto &kv : obs.completes) s += kv.first + "<->" + kv.second + " "; return {"transaction_complete_count", std::to_string(obs.completes.size()) + " TRANSACTION_COMPLETE events for " + std::to_string(N) + " pairs: " + s}; }
     for (size_t i = 0; i < N; i++) {
         std::string qt = "q" + std::to_string(i) + "z", st = "s" + std::to_string(i) + "z";
@@ -128,7 +129,7 @@ static void campaign() {
         std::string text = case_text(c); vc::set_current_case(text);
         bool out2 = false; auto r = run_case(c, &out2);
         if (!rcx::shrinking()) { g_stats.evaluations++; g_stats.cls("histories"); g_stats.cls(std::string("interleaving_style_") + (style == 0 ? "response_first_when_legal" : style == 1 ? "requests_first" : style == 2 ? "random" : "earliest_response")); if (c.auto_destroy) g_stats.cls("auto_destroy"); for (size_t j = 0; j < N; j++) if (withheld[j]) { g_stats.cls("expect_100_continue_body_withheld_after_4xx"); break; } if (N >= 3 && out2) { g_stats.nt(vc::fnv1a(text)); g_stats.cls("n_ge_3_with_outstanding_requests"); } if (!out2) g_stats.cls("strict_ping_pong_histories"); g_stats.sample_sparse(text, g_stats.evaluations); }
-        if (!r.first.empty()) { std::string sig = "C04:" + r.first; if (A.is_known(sig)) { if (!rcx::shrinking()) g_stats.attributed[sig]++; return {}; } return rcx::Fail{sig, text, r.second}; }
+        if (!r.first.empty()) { std::string sig = (A.mode == "c09" ? std::string("C09:resume_point_or_progress:") : std::string("C04:")) + r.first; if (A.is_known(sig)) { if (!rcx::shrinking()) g_stats.attributed[sig]++; return {}; } return rcx::Fail{sig, text, r.second}; }
         return {};
     });
 }
@@ -145,7 +146,7 @@ static int replay(const std::string &path) {
     }
     bool o2; auto r = run_case(c, &o2);
     if (r.first.empty()) { printf("REPLAY-OK\n"); return 0; }
-    printf("REPLAY-FAIL sig=C04:%s\n%s\n", r.first.c_str(), r.second.c_str()); return 1;
+    printf("REPLAY-FAIL sig=%s%s\n%s\n", A.mode == "c09" ? "C09:resume_point_or_progress:" : "C04:", r.first.c_str(), r.second.c_str()); return 1;
 }
 
 int main(int argc, char **argv) {
